@@ -2,17 +2,28 @@
 Theorems: lean/ZygoVerif/Props/C15.lean over Model/SQ.lean (GenerateSyntaxQuote & the VM
 instructions it emits) against Spec/Subst.lean. Tie: channel `sq` (templates x bindings in
 reader-sugar, longhand and Go-API form; macro bodies x argument forms x call sites)."""
+import json
+import os
 import vcommon as V
 
 META = dict(
-    text="Lean 4 theorems (Props/C15.lean) prove for every template at any nesting depth of lists, arrays and hashes, every value of the unquoted expressions and every data stack that the instruction sequence GenerateSyntaxQuote emits (marker / squash / explode / vectorize / hashize), run on the stack machine of vm.go, pushes exactly the structurally substituted template (Spec/Subst.lean: unquote -> its value, splice -> the elements of its list, incl. first/last/adjacent/empty splices), leaves the stack below untouched, fails exactly when the substitution is undefined, and that a splice outside any sequence is refused; on a model of the macro call path (Duplicate / Apply / Generate of the expansion) that compiling a call of a template macro equals compiling the substituted body and that expansion leaves the caller's control state unchanged. The emission skeleton of the generator functions is regenerated from source and checked against the model by decide. The six unit-level examples in tests/*.zy cover flat templates only; the theorem covers all of them.",
-    note="Trusted: Lean kernel; axioms propext/Classical.choice/Quot.sound. Model/SQ.lean is hand-written and tied to zygo/generator.go + vm.go by the `sq` correspondence (exhaustive sequences up to length 3 over an 8-element alphabet x list/array x 3 input routes, random templates to depth 4, instruction listings compared one by one, macro bodies x call sites), which is differential testing. The code of an unquoted expression is abstracted as one step that pushes one value (property C04); its value and the hash constructor are parameters. The reader sugar (^ ~ ~@) and the macro call path (Duplicate/Apply/Generate of the expansion) are tied by correspondence only.",
+    text="(Strengthened: freshness and call-site contexts, see the end.) Lean 4 theorems (Props/C15.lean) prove for every template at any nesting depth of lists, arrays and hashes, every value of the unquoted expressions and every data stack that the instruction sequence GenerateSyntaxQuote emits (marker / squash / explode / vectorize / hashize), run on the stack machine of vm.go, pushes exactly the structurally substituted template (Spec/Subst.lean: unquote -> its value, splice -> the elements of its list, incl. first/last/adjacent/empty splices), leaves the stack below untouched, fails exactly when the substitution is undefined, and that a splice outside any sequence is refused; on a model of the macro call path (Duplicate / Apply / Generate of the expansion) that compiling a call of a template macro equals compiling the substituted body and that expansion leaves the caller's control state unchanged. The emission skeleton of the generator functions is regenerated from source and checked against the model by decide. The six unit-level examples in tests/*.zy cover flat templates only; the theorem covers all of them. Freshness: sq_code_pushes_no_container (the code of a template never pushes an array or hash as a literal), sq_result_fresh (on a machine that reports allocations, one evaluation allocates exactly one new array/hash per array/hash sub-template, holding its substituted value; built_length: as many as the template is written with), sq_history (every evaluation of a history with in-place mutations in between yields the substitution). Call sites: the generator model genC carries scopes, tail flag, function name and the loop stack; macro_call_in_context proves for every context that compiling a macro call yields exactly the code of compiling its expansion in that context (break/continue pop counts, tail-call scope removal, labelled loops). Regenerated tables pin the only literal push of the template generator, the macro branch (Duplicate, Apply, gen.Generate on the same generator) and every creation of a generator / write of Tail, scopes, funcname in generator.go.",
+    note="Trusted: Lean kernel; axioms propext/Classical.choice/Quot.sound. Model/SQ.lean is hand-written and tied to zygo/generator.go + vm.go by the `sq` correspondence (exhaustive sequences up to length 3 over an 8-element alphabet x list/array x 3 input routes, random templates to depth 4, instruction listings compared one by one, macro bodies x call sites), which is differential testing. The code of an unquoted expression is abstracted as one step that pushes one value (property C04); its value and the hash constructor are parameters. The reader sugar (^ ~ ~@) and the macro call path (Duplicate/Apply/Generate of the expansion) are tied by correspondence only. Object identity is not part of the Lean value type: freshness is stated through allocation events (runA) and the absence of literal pushes, and observed on the real code by the history ops (sq h: impl vs substitution after in-place mutation). genC models the context-sensitive instructions of the generator only (scopes, breaks, tail jumps, calls, closures) for the special forms used at call sites; it is tied by the sq k listings (impl vs model) and the regenerated tables; the run-time behaviour of a call site is judged impl-with-macro vs impl-with-hand-written-expansion.",
     technique="Lean 4 proof (marker discipline by mutual structural induction on templates) over an executable model + model/implementation correspondence",
     design_ref="DESIGN.md §7 C15",
 )
 
 
 def run(rep):
+    # property-local known findings (notes/C15.known.json) in addition to the shared file
+    try:
+        with open(os.path.join(V.VERIF, "notes", "C15.known.json")) as f:
+            d = json.load(f)
+        for k in (d.get("findings", []) if isinstance(d, dict) else d):
+            if k.get("property") == "C15" and k not in rep.known:
+                rep.known.append(k)
+    except (OSError, ValueError):
+        pass
     prep = V.prepare(["ZygoVerif.Props.C15"])
     ok = V.lean_phase(rep, prep, "ZygoVerif.Props.C15")
     rep.assumptions += [
@@ -20,6 +31,8 @@ def run(rep):
         "SexpMarker is not the value of any script expression",
         "MakeHash is a parameter (ordered-map behaviour is C14); the driver instantiates it for atom keys only",
         "Model/SQ.lean is hand-written; tied to generator.go/vm.go by the `sq` correspondence only; lexer/parser sugar and the macro call path are tied by correspondence only",
+        "object identity is modelled by allocation events (vectorize / hashize allocate, push does not); that `aset`/`hset` change exactly the object they are given is not modelled",
+        "genC (Model/MacroCall.lean) covers the context-sensitive instructions only and the special forms and, or, cond, quote, def, set, fn, defn, begin, let, letseq, for, break, continue, newScope, return; other forms at a call site are outside the model",
     ]
     if not (prep["ok_drv"] and prep["ok_harness"]):
         rep.violation("machinery-failure", {"what": "driver or harness did not build against the current tree",
@@ -36,7 +49,8 @@ def run(rep):
         rep.coverage["seeds"] = [rep.seed, rep.seed + 1, rep.seed + 2]
 
     def nontrivial(op, impl):
-        return impl.startswith("ok ") or impl.startswith("code ") or (impl.startswith("x ") and " eq " in impl)
+        return (impl.startswith("ok ") or impl.startswith("code ") or (impl.startswith("x ") and " eq " in impl)
+                or impl.startswith("k eq") or (impl.startswith("kc ") and not impl.endswith("ctx= err")))
 
     # One comparison per input route, so that a defect of one route (reader sugar, hash
     # templates, macro path …) is reported with its own failing input and does not hide
@@ -47,6 +61,12 @@ def run(rep):
             return "sq/macro-" + t[2]
         if t[1] == "c":
             return "sq/listing"
+        if t[1] == "h":
+            return "sq/history-" + t[2]
+        if t[1] == "k":
+            return "sq/call-site"
+        if t[1] == "kc":
+            return "sq/call-site-listing"
         if "{" in t:
             return "sq/hash-template"
         return {"sv": "sq/reader-sugar", "sh": "sq/reader-sugar", "lg": "sq/longhand", "dr": "sq/go-api"}.get(t[2], "sq/other")
@@ -64,6 +84,11 @@ def run(rep):
     rep.coverage["rule"] = ("sq t: every sequence of length <= 3 over {literal, ~int, ~list, ~@(), ~@(1), ~@(1 2), nested list with splice, nested array with unquote} "
                             "as list and as array, through reader sugar, longhand and Go-API routes (exhaustive), plus random templates nested to depth 4 with error cases; "
                             "sq c: the same templates compiled only — the real instruction listing (overlay accessor) against the model's genTop output, instruction by instruction; "
-                            "sq m: macro bodies x type-directed argument forms x call sites (top, fn, let, loop, other macro), incl. wrong arity and ill-typed splices. "
+                            "sq m: macro bodies x type-directed argument forms x call sites (top, fn, let, loop, other macro), incl. wrong arity and ill-typed splices; "
+                            "sq h: one template evaluated 2-3 times (top level, function called repeatedly, function in a loop, loop body, call argument, macexpand, Go-API form loaded repeatedly) "
+                            "with every container the template built mutated in place (aset / hset) after each evaluation - every later result and every final state against the substitution; "
+                            "sq k: macro call vs the expansion written by hand in the same program - loop shape (none, plain, labelled, nested) x 0..3 let/letseq/newScope between loop and call x "
+                            "top level / function tail / non-tail / anonymous fn x 24 expansions (break, continue, labelled, let+break, set/def of caller variables, nested macro calls, self tail call, return, inner loop, and/or, array) "
+                            "systematically, plus random compositions of frames: value, observable globals, four stack depths, complete instruction listing, and the context-sensitive instructions against the Lean generator model. "
                             "Non-trivial = the implementation produced a value / a listing.")
     V.proof_break_resolution(rep, bool(bad_spec))
